@@ -1,4 +1,5 @@
 import PyPhysim.Proofs.C09Example
+import PyPhysim.Proofs.C09Noise
 
 /-!
 # C09 — block diagonalisation nulls inter-user interference within the power budget
@@ -68,6 +69,29 @@ theorem svd_null_space (k : Fin K) (U : Mat ℂ (tildeIdx (N := N) k).length (ti
     (hU : matMul (VH1 k) (cT (VH1 k)) = eye) :
     matMul (tildeChannel H k) (calcBD hK H VH1 VH2 S2 k).V0 = fun _ _ => 0 :=
   Pf.svd_null _ U S (VH1 k) _ (Pf.tildeIdx_room k) hsvd hU
+
+/-- the whole contract from what `np.linalg.svd` promises: factorisation of every
+    tilde channel and unitary `V_H` factors -/
+theorem bd_contract_of_svd
+    (hsvd : ∀ k, ∃ (U : Mat ℂ (tildeIdx (N := N) k).length (tildeIdx (N := N) k).length)
+      (S : Fin (tildeIdx (N := N) k).length → ℝ),
+      tildeChannel H k = matMul (matMul U (Pf.sigmaRect S)) (VH1 k))
+    (hU1 : ∀ k, matMul (VH1 k) (cT (VH1 k)) = eye) (hU2 : ∀ k, matMul (VH2 k) (cT (VH2 k)) = eye) :
+    Pf.BDContract hK H VH1 VH2 S2 :=
+  ⟨hU1, hU2, fun k => by
+    obtain ⟨U, S, h⟩ := hsvd k
+    exact Pf.svd_null _ U S (VH1 k) _ (Pf.tildeIdx_room k) h (hU1 k)⟩
+
+/-- what the stream-reduction paths of `EnhancedBD` take from
+    `_calc_BD_matrix_no_power_scaling`: the block `Ms_bad_k` of user `k` is invisible to
+    every other user and has orthonormal columns (the hypotheses `hnull`, `hM` of
+    `enhanced_reduced_nulls` / `enhanced_power_exact`) -/
+theorem calc_bd_precoder_facts (c : Pf.BDContract hK H VH1 VH2 S2) (k : Fin K) :
+    colBlock (msBad (calcBD hK H VH1 VH2 S2)) k = (calcBD hK H VH1 VH2 S2 k).Ms ∧
+    (∀ j, j ≠ k → matMul (rowBlock H j) (calcBD hK H VH1 VH2 S2 k).Ms = fun _ _ => 0) ∧
+    matMul (cT (calcBD hK H VH1 VH2 S2 k).Ms) (calcBD hK H VH1 VH2 S2 k).Ms = eye :=
+  ⟨Pf.colBlock_msBad hK H VH1 VH2 S2 k, fun j hjk => Pf.calcBD_null hK H VH1 VH2 S2 c j k hjk,
+    Pf.calcBD_orthonormal hK H VH1 VH2 S2 c k⟩
 
 /-- `block_diagonalize` (water-filling + normalisation): the effective channel
     `newH = H · Ms_good` is block diagonal, for every power vector `p` -/
@@ -228,6 +252,20 @@ theorem enhanced_rx_inverts (iPu : ℝ) (Hk : Mat ℂ N T) (Msk : Mat ℂ T N) (
 theorem noise_eigenspace_iff (pe nv : ℝ) (hpe : pe ≠ 0) (E : Mat ℂ N r) (P : Mat ℂ N n) :
     matMul (covExtInt pe nv E) P = (fun i j => Cx.ofReal nv * P i j) ↔ matMul (cT E) P = fun _ _ => 0 :=
   Pf.noise_eigenspace_iff pe nv hpe E P
+
+/-- the noise-eigenspace contract from what `np.linalg.svd` promises for
+    `Re_k = pe·E Eᴴ + σ²·1` (`pe ≥ 0`, `σ² > 0`): if `Re_k = U·diag(S)·V_H` with `U`, `V_H` unitary
+    and the `n` smallest singular values equal the noise variance (which is the case when
+    `n ≤ N − rank E`: checked numerically), then the matrix of the `n` least right singular
+    vectors returned by `_calc_stream_reduction_matrix` satisfies `Re_k P = σ² P` -/
+theorem reduction_in_noise_eigenspace (pe nv : ℝ) (hpe : 0 ≤ pe) (hnv : 0 < nv) (E : Mat ℂ N r)
+    (U VHre : Mat ℂ N N) (S : Fin N → ℝ) (hn : n ≤ N)
+    (hsvd : covExtInt pe nv E = matMul (matMul U (diagM (fun i => Cx.ofReal (S i)))) VHre)
+    (hU : matMul (cT U) U = eye) (hV : matMul VHre (cT VHre) = eye)
+    (hS : ∀ j : Fin n, S (revIdx hn j) = nv) :
+    matMul (covExtInt pe nv E) (reductionMatrix VHre n hn) =
+      fun i j => Cx.ofReal nv * reductionMatrix VHre n hn i j :=
+  Pf.leastCols_noise_eigenspace pe nv hpe hnv E U VHre S hn hsvd hU hV hS
 
 /-- non-vacuity of "enough streams are sacrificed": with `N = 2` antennas and a rank-one
     interference `E = (2i, 0)ᵀ`, the reduction matrix `P = (0, 1)ᵀ` lies in the noise
